@@ -139,3 +139,64 @@ func idleUntagged(state []byte) bool {
 	}
 	return false
 }
+
+// HelpersParked takes one snapshot and counts the goroutines of the caller's bubble that were CREATED by code of
+// the given package (substring of the "created by" line) and are parked (durably or on a mutex). It is meant to be
+// called at the instant a Close/Stop call returns: a helper goroutine that is still parked inside the component
+// then has not finished, whereas one that has signalled completion and is merely on its way out is running or
+// runnable and is not counted.
+func HelpersParked(createdBy string) (int, string) {
+	bp := stackBufPool.Get().(*[]byte)
+	defer stackBufPool.Put(bp)
+	n := runtime.Stack(*bp, true)
+	dump := (*bp)[:n]
+	var mine []byte
+	type g struct {
+		state, bubble []byte
+		body          []byte
+	}
+	var gs []g
+	for _, blk := range bytes.Split(dump, []byte("\n\n")) {
+		nl := bytes.IndexByte(blk, '\n')
+		if nl < 0 {
+			nl = len(blk)
+		}
+		line := blk[:nl]
+		if !bytes.HasPrefix(line, []byte("goroutine ")) || !bytes.HasSuffix(line, []byte("]:")) {
+			continue
+		}
+		lb := bytes.IndexByte(line, '[')
+		inner := line[lb+1 : len(line)-2]
+		var bubble []byte
+		if k := bytes.Index(inner, []byte("synctest bubble ")); k >= 0 {
+			bubble = inner[k+len("synctest bubble "):]
+			inner = bytes.TrimSuffix(bytes.TrimSpace(inner[:k]), []byte(","))
+		}
+		if k := bytes.IndexByte(inner, ','); k >= 0 {
+			inner = inner[:k]
+		}
+		if bytes.Equal(inner, []byte("running")) && bubble != nil {
+			mine = bubble
+			continue
+		}
+		gs = append(gs, g{inner, bubble, blk})
+	}
+	count := 0
+	var first string
+	for _, x := range gs {
+		if mine == nil || !bytes.Equal(x.bubble, mine) {
+			continue
+		}
+		parked := bytes.HasSuffix(x.state, []byte("(durable)")) || bytes.HasPrefix(x.state, []byte("sync.Mutex.Lock")) || bytes.HasPrefix(x.state, []byte("sync.RWMutex."))
+		if !parked {
+			continue
+		}
+		if i := bytes.LastIndex(x.body, []byte("created by ")); i >= 0 && bytes.Contains(x.body[i:], []byte(createdBy)) {
+			count++
+			if first == "" {
+				first = string(x.body)
+			}
+		}
+	}
+	return count, first
+}
